@@ -1,5 +1,5 @@
 CONSTANT MaxLen = 3
-CONSTANT Alphabet = {"x", "y", "..", ".", "", "..x", "x..", "...", "x\\..\\..\\e"}
+CONSTANT Alphabet = {"x", "y", "..", ".", "", "..x", "x..", "...", "x\\..\\..\\e", "x/.."}
 INIT Init
 NEXT Next
 CHECK_DEADLOCK FALSE
